@@ -16,6 +16,9 @@ type c15Case struct {
 	Bad  string `json:"bad_token"`
 	Kind string `json:"defect"` // unknown | missing
 	At   int    `json:"bad_token_offset"`
+	// when set, S is entry Index of this allowed list and the call is Satisfies("MIT", Allowed)
+	Allowed []string `json:"allowed,omitempty"`
+	Index   int      `json:"index,omitempty"`
 }
 
 var offRe = regexp.MustCompile(`offset (\d+)`)
@@ -55,6 +58,19 @@ func c15Judge(s, errText, bad, kind string) string {
 }
 
 func c15Check(cs c15Case) (msg string, skip bool) {
+	if cs.Allowed != nil {
+		r := Sat("MIT", cs.Allowed)
+		if r.Panic != "" {
+			return "", true
+		}
+		if !r.IsErr {
+			return fmt.Sprintf("Satisfies(MIT, %q) accepted the bad entry %q", cs.Allowed, cs.S), false
+		}
+		if m := c15Judge(cs.S, r.Err, cs.Bad, cs.Kind); m != "" {
+			return fmt.Sprintf("Satisfies(MIT, %q), entry %d: %s", cs.Allowed, cs.Index, m), false
+		}
+		return "", false
+	}
 	r := Sat(cs.S, []string{"MIT"})
 	e := Ext(cs.S)
 	if r.Panic != "" || e.Panic != "" {
@@ -77,6 +93,9 @@ var c15Items = [][]string{
 	{"DocumentRef-d", ":", "LicenseRef-x"}, {"MIT", "WITH", "Bison-exception-2.2"}, {"Apache-2.0-or-later", "WITH", "Bison-exception-2.2"},
 	{"("}, {")"}, {"AND"}, {"OR"},
 }
+
+// allowed-list entries placed before the bad entry (each makes the scanner rewrite its buffer or not)
+var c15Before = [][]string{{"Apache-2.0-or-later"}, {"MIT"}, {"MIT-or-later+", "Zlib-or-later"}, {"GPL-2.0+", "LicenseRef-x"}}
 
 var c15Bad = []struct{ tok, kind string }{
 	{"FOO", "unknown"}, {"foo-1.0", "unknown"}, {"and", "unknown"}, {"MIT-or-later-or-later", "unknown"},
@@ -160,6 +179,27 @@ func c15Run(c *Ctx) {
 					if msg != "" {
 						c.Report(Violation{Kind: "c15.case", Class: bad.kind + ":" + first(errShape(msg), 30), Key: s, Msg: msg, Size: len(s), Case: mustJSON(cs),
 							GoTest: fmt.Sprintf("_, err := spdxexp.ExtractLicenses(%q) // %q is at offset %d", s, bad.tok, at)})
+					}
+					// the same string as an allowed-list entry, after entries that make the scanner rewrite its buffer
+					if len(prefix) <= 4 && rn == "loose" {
+						for _, before := range c15Before {
+							al := append(append([]string{}, before...), s)
+							cs2 := c15Case{S: s, Bad: bad.tok, Kind: bad.kind, At: at, Allowed: al, Index: len(before)}
+							msg2, skip2 := c15Check(cs2)
+							c.Inc("states")
+							c.Inc("transitions")
+							c.Inc("evaluations")
+							if skip2 {
+								c.Inc("skipped_panic")
+								continue
+							}
+							c.Inc("traces")
+							c.Inc("nontrivial")
+							c.Outcome(bad.kind + ":allowed-entry")
+							if msg2 != "" {
+								c.Report(Violation{Kind: "c15.case", Class: "allowed-entry:" + bad.kind, Key: fmt.Sprintf("allowed %q", al), Msg: msg2, Size: len(s) + 20*len(before), Case: mustJSON(cs2)})
+							}
+						}
 					}
 				}
 			}
